@@ -104,7 +104,11 @@ def check_flow(chk, c, tmp, drv):
     def spread(s_):
         # finite ranges: inside the range; one-sided ranges: next to the finite end (a fitted proposal then has mass beyond it)
         z_ = r.normal(0, 1, (150, c["d"]))
-        return np.where(fin, np.where(np.isfinite(lo), lo, 0.0) + (0.5 + s_ * np.tanh(z_)) * wd, anchor + np.where(np.isfinite(lo), 1, -1) * 1.2 * s_ * np.abs(z_))
+        out_ = np.where(fin, np.where(np.isfinite(lo), lo, 0.0) + (0.5 + s_ * np.tanh(z_)) * wd, anchor + np.where(np.isfinite(lo), 1, -1) * 1.2 * s_ * np.abs(z_))
+        if c.get("pile_upper"):
+            out_[:, 0] = hi[0] - 0.6 * s_ * np.abs(z_[:, 0]) * wd[0] - 1e-3 * wd[0]        # the data sit against the upper end of the first range
+            out_[:, 0] = np.maximum(out_[:, 0], lo[0] + 1e-3 * wd[0])
+        return out_
 
     data = spread(0.25)
     stages = [("untrained", None)]
@@ -315,7 +319,7 @@ def run(chk: core.Check):
                   {"backend": "zuko", "bounded": "probit", "dtype": "float64", "d": 2, "lo": [0.0, -2.0], "hi": [INF, 3.0], "affine": True, "seed": 8, "train": True},
                   {"backend": "flowjax", "bounded": "logit", "dtype": "float64", "d": 2, "lo": [-INF, 10.0], "hi": [4.0, 10.5], "affine": False, "seed": 9, "train": True},
                   # a range that ENDS exactly at zero (a negative-definite parameter): 0 is a bound like any other
-                  {"backend": "zuko", "bounded": "logit", "dtype": "float64", "d": 2, "lo": [-4.0, -2.0], "hi": [0.0, 3.0], "affine": True, "seed": 11, "train": True},
+                  {"backend": "zuko", "bounded": "logit", "dtype": "float64", "d": 2, "lo": [-4.0, -2.0], "hi": [0.0, 3.0], "affine": True, "seed": 11, "train": True, "pile_upper": True},
                   {"backend": "flowjax", "bounded": "probit", "dtype": "float64", "d": 2, "lo": [-1.0, 5000.0], "hi": [3.0, 5001.0], "affine": False, "seed": 10, "train": True},
                   {"backend": "zuko", "bounded": "off", "dtype": "float64", "d": 1, "lo": [0.0], "hi": [1e-14], "affine": True, "seed": 6, "train": True}]
         for c in (corpus[:6] if quick else corpus):
@@ -343,7 +347,7 @@ def replay(chk: core.Check, path: str) -> int:
             if c.get("level") == "through_aspire":
                 check_through_aspire(chk, False)
                 continue
-            c = {k: c[k] for k in ("backend", "bounded", "dtype", "d", "lo", "hi", "affine", "seed", "train")}
+            c = {k: c[k] for k in ("backend", "bounded", "dtype", "d", "lo", "hi", "affine", "seed", "train", "pile_upper") if k in c}
             check_flow(chk, c, tmp, drv)
     finally:
         shutil.rmtree(tmp, ignore_errors=True)
